@@ -229,11 +229,17 @@ Render(doc, i, C, fuel) ==
                 fillL == IF c2.fill = "none" \/ c2.fo = -1 THEN <<>>
                          ELSE << [shape |-> [tag |-> nd.tag, g |-> nd.g, m |-> m2, rule |-> c2.rule],
                                   clips |-> cl, paint |-> c2.fill, e |-> c2.fo + e, grp |-> C.grp,
-                                  kind |-> "fill", ctx |-> c2,
+                                  kind |-> "fill", ctx |-> c2, ni |-> <<i, C.inst>>, eo |-> e,
                                   \* gradient fill: index of the referenced paint server (0 = plain colour)
                                   gi |-> IF Has(at, "fillref") /\ c2.fill = "url(#" \o Get(at, "fillref") \o ")"
                                          THEN ById(doc, Get(at, "fillref")) ELSE 0] >>
-            IN fillL
+                \* the stroke is painted above the fill (SVG 1.1 11.4); its region is three-valued and
+                \* only interpreted by StrokeSem / TraceStroke
+                strokeL == IF c2.stroke = "none" \/ c2.so = -1 \/ c2.sw = 0 THEN <<>>
+                           ELSE << [shape |-> [tag |-> nd.tag, g |-> nd.g, m |-> m2, rule |-> "nonzero"],
+                                    clips |-> cl, paint |-> c2.stroke, e |-> c2.so + e, grp |-> C.grp,
+                                    kind |-> "stroke", ctx |-> c2, ni |-> <<i, C.inst>>, eo |-> e, gi |-> 0] >>
+            IN fillL \o strokeL
        [] nd.tag = "use" ->
             LET ti == ById(doc, nd.ref)
                 mu == Mul(C.m, TfOf(at))
